@@ -133,6 +133,32 @@ Theorem C17_generated_append_one_sample : forall x y p, (2 <= length x)%nat -> y
 Proof. exact gen_append_one_sample. Qed.
 Print Assumptions C17_generated_append_one_sample.
 
+(** ---- function bodies REGENERATED from the source as glue terms (Gen/UtilsGlue.v), run by the interpreter of Model/GlueFun.v with
+     the leaves of Model/GlueLeaves.v (callees mean their models), are the hand-written models ---- *)
+From TW Require Import Model.GlueLeaves Gen.UtilsGlue Proofs.GlueUtilsProofs.
+Open Scope string_scope.
+Theorem C17_glue_append_one_sample : forall x y p, append_one_sample_defined x y = true ->
+  outcome_arr_pair (call_fun utils_callf array_methf no_apply no_pow utils_functions "append_one_sample"
+     [("x", VArr x); ("y", VArr y); ("make_periodic", VBoolV p)])
+  = Ok (append_one_sample x y p).
+Proof. exact glue_append_one_sample. Qed.
+Print Assumptions C17_glue_append_one_sample.
+
+Theorem C17_glue_integral : forall x y r,
+  outcome_arr (call_fun utils_callf array_methf no_apply no_pow utils_functions "integral"
+     [("x", VArr x); ("y", VArr y); ("method", VStrV (rule_name r))]) = integral x y r.
+Proof. exact glue_integral. Qed.
+Print Assumptions C17_glue_integral.
+
+Theorem C17_glue_integral_rules : forall x y, length x = length y ->
+  outcome_arr (call_fun utils_callf array_methf no_apply no_pow utils_functions "rectangle_integral" [("x", VArr x); ("y", VArr y)])
+    = Ok (rectangle_integral x y) /\
+  outcome_arr (call_fun utils_callf array_methf no_apply no_pow utils_functions "trapezoid_integral" [("x", VArr x); ("y", VArr y)])
+    = Ok (trapezoid_integral x y).
+Proof. exact glue_integral_rules. Qed.
+Print Assumptions C17_glue_integral_rules.
+Close Scope string_scope.
+
 Example C17_example :
   average (oversample_linspace [qz 0; qz 1; qz 3] 4) (oversample_pc [qz 5; qz 7; qz 2] 4) 4
   = ([qz 0; qz 1; qz 3], [qz 5; qz 7; qz 2]).
